@@ -10,7 +10,7 @@
 (*      prefix splitting, acceptance)                  -> T-FAIL records      *)
 (* and checks that the harness evaluated the symbolic value TLC exported      *)
 (* (ECHO-FAIL = machinery).  One state per observation.                       *)
-EXTENDS DefsEdit
+EXTENDS DefsSys
 Obs == JsonDeserialize(IOEnv.C02OBS)
 VARIABLE i
 Init == i = 0
@@ -114,6 +114,43 @@ EditP(o) ==
            \* from the side of the history)
            p.ok => Fail("P-FAIL", "edit-removed-resolves", info)
 
+\* ---- reduction to a named unit system inside an edited registry: every call form
+SysP(o) ==
+  LET s == o.s
+      src == [j \in DOMAIN o.src |-> <<o.src[j][1], o.src[j][2], o.src[j][3]>>]
+      an == Anchors(s, src, o.t, o.op)
+      want == FormsOf(s, o.ctor)
+      sdim == SDim(src) IN
+  /\ ({<<o.anch[j].n, o.anch[j].g>> : j \in DOMAIN o.anch} # {<<n, an[n]>> : n \in DOMAIN an}) => Fail("ECHO-FAIL", "sys-anchors", <<>>)
+  /\ ([j \in DOMAIN o.forms |-> o.forms[j].form] # want) => Fail("ECHO-FAIL", "sys-forms", <<>>)
+  /\ ~o.edit_ok => Fail("T-FAIL", "sys-edit-" \o o.op, [exc |-> o.exc])
+  /\ \A j \in DOMAIN o.anch :
+       LET a == o.anch[j] IN
+       /\ ~a.ok => Fail("T-FAIL", "sys-atom-raises", [n |-> a.n])
+       /\ (a.ok /\ ~C02_SysAtom(a.eu)) => Fail("P-FAIL", "sys-atom-scale", [n |-> a.n, eu |-> a.eu])
+  /\ \A j \in DOMAIN o.forms :
+       LET f == o.forms[j]
+           at == [k \in DOMAIN f.at |-> <<f.at[k][1], f.at[k][2], f.at[k][3]>>]
+           known == \A k \in DOMAIN at : at[k][1] # 0 /\ Readable(at[k][1])
+           info == [form |-> j] IN
+       IF ~f.ok THEN Fail("T-FAIL", "sys-raises", [form |-> j, exc |-> f.exc])
+       ELSE
+         /\ ~known => Fail("T-FAIL", "sys-atom-unknown", info)
+         /\ (known /\ ~(\A k \in DOMAIN at : at[k][1] \in Pool(s, src))) => Fail("T-FAIL", "sys-atom-outside-system", info)
+         /\ ~f.co1 => Fail("T-FAIL", "sys-coefficient", info)
+         \* the returned unit: dimension and scale are those of its constituents in the caller's registry
+         /\ (known /\ ~C02_Dim(f.dim, SDim(at))) => Fail("P-FAIL", "sys-unit-dimension", [form |-> j, want |-> SDim(at), got |-> f.dim])
+         /\ (known /\ ~C02_SysScale(f.euc, at, f.magu)) => Fail("P-FAIL", "sys-unit-scale", [form |-> j, eu |-> f.euc])
+         \* the value: x * scale(u1) / scale(u2), when the library stays in the dimension of the source (electromagnetic
+         \* units are re-routed between cgs and SI by design: not compared)
+         /\ (known /\ f.isq /\ SDim(at) = sdim) =>
+              /\ ~f.val.ok => Fail("P-FAIL", "sys-convert-raises", info)
+              /\ (f.val.ok /\ ~C02_SysConvert(f.val.eu, src, at, f.magu)) => Fail("P-FAIL", "sys-convert", [form |-> j, eu |-> f.val.eu])
+              /\ (f.same.ok /\ ~C02_SysSame(f.same.eu)) => Fail("P-FAIL", "sys-convert-same-expression", [form |-> j, eu |-> f.same.eu])
+              /\ ~f.same.ok => Fail("P-FAIL", "sys-convert-same-expression-raises", info)
+              /\ (f.back.ok /\ ~C02_SysConvert(f.back.eu, src, at, f.magu)) => Fail("P-FAIL", "sys-convert-back", [form |-> j, eu |-> f.back.eu])
+              /\ ~f.back.ok => Fail("P-FAIL", "sys-convert-back-raises", info)
+
 StepP == i > 0 =>
   LET o == Obs[i] IN
   CASE o.kind = "name" -> NameP(o)
@@ -123,4 +160,5 @@ StepP == i > 0 =>
     [] o.kind = "edit" -> EditP(o)
     [] o.kind = "ord" -> OrdP(o)
     [] o.kind = "pow" -> PowObsP(o)
+    [] o.kind = "sys" -> SysP(o)
 =============================================================================
